@@ -284,3 +284,9 @@ def run(F, rep):
             rep.check(okd, 'C08.G2', 'compatible|return %s' % render(e)[:30], cpf.where(r), 'Units::compatible returns `%s` on a path where isDefined() was not established for both units (facts: %s)' % (render(e)[:30], sorted(conds)[:4]), 'behind isDefined() of both')
     if n_g2 < 1:
         raise AnalysisBroken('Units::compatible has no return that can be true')
+
+    # ------------------------------------------------------------------ loop-carried locals
+    from engines import rule_loop_state
+    rule_loop_state(F, rep, 'C08.S1', lambda g: g.file.endswith('/units.cpp'), 'units.cpp')
+
+
